@@ -327,6 +327,12 @@ func runC11once(c C11Case) (fails []vstat.Failure) {
 				cl.conn.SetReadDeadline(time.Now().Add(3 * time.Second))
 				m, err := ReadResponse(cl.br, "GET")
 				ok := err == nil && m.Status == 200
+				if !ok && fw != nil && time.Now().After(tShutdown.Add(deadline-60*time.Millisecond)) {
+					// forwarder drains only for ShutdownTimeout and then closes everything, tunnels included: an
+					// exchange that was still under way at that moment is not judged
+					st.Class("tunnel-echo-across-the-drain-deadline")
+					ok = true
+				}
 				cl.echoOK = &ok
 				cl.conn.SetReadDeadline(time.Time{})
 			}
